@@ -132,14 +132,11 @@ fn causes(c: &Case, pat: &Pattern) -> Vec<&'static str> {
         v.push("Prereq(RemotePublicKey)");
     }
     match c.res {
-        Res::NoRng => v.push("Init(GetRngImpl)"),
+        Res::NoRng => {}, // see soft_causes
         Res::NoDh => v.push("Init(GetDhImpl)"),
         Res::NoCipher | Res::FallbackNoCipher => v.push("Init(GetCipherImpl)"),
         Res::NoHash => v.push("Init(GetHashImpl)"),
         _ => {},
-    }
-    if c.dh == "448" {
-        v.push("Init(GetDhImpl)");
     }
     for m in c.mods.split('+').filter(|m| !m.is_empty()) {
         if m == "fallback" {
@@ -151,6 +148,14 @@ fn causes(c: &Case, pat: &Pattern) -> Vec<&'static str> {
         }
     }
     v
+}
+
+/// Circumstances under which the build may fail or succeed, as far as the property goes: a resolver without a
+/// random source (the RNG is not a primitive the protocol name names; snow refuses such a resolver at build time,
+/// a snow that fell back to a default source or asked for it lazily would satisfy the property just as well), and
+/// Curve448, which the name grammar knows and no built-in resolver provides today.
+fn soft_causes(c: &Case) -> bool {
+    c.res == Res::NoRng || c.dh == "448"
 }
 
 fn err_name(e: &Error) -> String {
@@ -175,14 +180,16 @@ pub fn judge_build(c: &Case) -> Result<bool, (String, String)> {
         Err(_) => Err((format!("build_{role} panicked"), format!("{c:?}"))),
         Ok(Ok(_)) => {
             if want.is_empty() {
-                Ok(true)
+                Ok(!soft_causes(c))
             } else {
                 Err((format!("build_{role} succeeded although {} applies", want[0]), format!("{c:?}")))
             }
         },
         Ok(Err(e)) => {
             let got = err_name(&e);
-            if want.is_empty() {
+            if want.is_empty() && soft_causes(c) {
+                Ok(false)
+            } else if want.is_empty() {
                 Err((format!("build_{role} failed with {got} although everything the pattern needs was supplied"), format!("{c:?}")))
             } else {
                 // the property asks for "a descriptive error at build time", not for a particular variant:
@@ -357,7 +364,14 @@ fn ring_only_builds(ctx: &Ctx) {
         for h in ["SHA256", "SHA512", "BLAKE2s", "BLAKE2b"] {
             for pat in ["NN", "XX", "NNpsk0"] {
                 let name = format!("Noise_{pat}_25519_{c}_{h}");
-                let documented = c != "XChaChaPoly" && h.starts_with("SHA");
+                // does the resolver provide the named cipher and hash? Asked of the resolver itself (which
+                // primitives the ring backend offers is not this property's business; that what it offers is
+                // the named primitive is checked below and in the built-in table)
+                let documented = std::panic::catch_unwind(|| {
+                    let Ok(params) = name.parse::<snow::params::NoiseParams>() else { return false };
+                    RingResolver.resolve_cipher(&params.cipher).is_some() && RingResolver.resolve_hash(&params.hash).is_some()
+                })
+                .unwrap_or(false);
                 ctx.add(&ctx.evaluations, 1);
                 let mk = |ring: bool, init: bool| -> Result<snow::HandshakeState, snow::Error> {
                     let res: BoxedCryptoResolver = if ring { Box::new(FallbackResolver::new(Box::new(RingResolver), Box::new(Partial { rng: true, dh: true, cipher: false, hash: false }))) } else { Box::new(DefaultResolver) };
